@@ -209,6 +209,11 @@ func getSignedAttributes(req *signature.SignRequest, algorithm string) (map[stri
 		if _, ok := extAttrs[key]; ok {
 			return nil, &signature.InvalidSignRequestError{Msg: fmt.Sprintf("%q already exists in the extAttrs", key)}
 		}
+		if contains(headerKeys, key) {
+			// headers defined by the envelope specification cannot be
+			// extended attributes
+			return nil, &signature.InvalidSignRequestError{Msg: fmt.Sprintf("attribute key:%s repeated", key)}
+		}
 		extAttrs[key] = elm.Value
 		if elm.Critical {
 			crit = append(crit, key)
